@@ -184,3 +184,430 @@ CONTRACTS = [
 ]
 for c in CONTRACTS:
     c.use_at_calls = False
+
+
+# ------------------------------------------------------------------------------------------ senders
+from . import lib_values as L           # noqa: E402
+from .c11_clients import ConvertDict, ConvertValue    # noqa: E402
+
+
+class _Sender(Contract):
+    props = ("C13",)
+    trusted = TRUSTED + L.TRUSTED
+    use_at_calls = False
+
+    def __init__(self, mod, klass, method):
+        self.mod, self.klass, self.method = mod, klass, method
+        self.target = f"{mod.__name__}:{klass}.{method}"
+        self.telemetry = method.endswith("_with_telemetry")
+
+    def _self(self, E):
+        attrs = {"ws_connection_init_payload": E.sym("init_payload", Opt(JOBJ))}
+        if self.klass.endswith("OpenTelemetry"):
+            attrs["tracer"] = Obj(F.FakeTracer, {})
+        return Obj(getattr(self.mod, self.klass), attrs)
+
+    def native_self(self):
+        cls = getattr(self.mod, self.klass)
+        kw = dict(ws_url="ws://localhost/graphql", ws_connection_init_payload=self._inputs.get("init_payload"))
+        if self.klass.endswith("OpenTelemetry"):
+            kw["tracer"] = None if not self.telemetry else _native_tracer()
+        return cls(**kw)
+
+    def native_effects(self, inputs):
+        return [(k, F.abstract_text(v)) for k, v in self._ws.log]
+
+    def on_raise(self, A, exc_cls, exc):
+        return {"senders-do-not-raise": z3.BoolVal(False)}
+
+
+class SendConnectionInit(_Sender):
+    """statement: `sends connection_init (with the configured payload)`; an empty payload object is the same as none"""
+
+    def setup(self, E):
+        kw = dict(websocket=Obj(F.FakeWS, {}))
+        if self.telemetry:
+            kw["root_span"] = Obj(F.FakeSpan, {})
+        return [self._self(E)], kw
+
+    def ensures(self, A, res):
+        p = A["init_payload"] if "init_payload" in A else z3.Const("init_payload", V.Val)
+        with_p = V.lower(Obj(models.JsonText, {"value": {"type": "connection_init", "payload": SV(p)}}))
+        without = V.lower(Obj(models.JsonText, {"value": {"type": "connection_init"}}))
+        frame = z3.If(truthy(p), with_p, without)
+        eff = F.effects_term(A["__effects__"])
+        return {"exactly-one-frame/connection_init-with-the-configured-payload": eff == lst(tup("ws_send", frame)),
+                "returns-none": res == V.VNone}
+
+    def native_args(self, inputs):
+        self._inputs = inputs
+        self._ws = F.NativeWS()
+        kw = dict(websocket=self._ws)
+        if self.telemetry:
+            kw["root_span"] = _native_span()
+        return [], kw
+
+    def native_names(self, inputs, args, kwargs):
+        return dict(init_payload=inputs.get("init_payload"))
+
+    def samples(self, tier):
+        return [dict(init_payload=p) for p in (None, {}, {"token": "t"}, {"a": {"b": [1, None]}})]
+
+
+class SendSubscribe(_Sender):
+    """statement: `exactly one subscribe carrying query, operationName and the serialised variables`"""
+
+    def setup(self, E):
+        kw = dict(websocket=Obj(F.FakeWS, {}), operation_id=E.sym("operation_id", Str), query=E.sym("query", Str),
+                  operation_name=E.sym("operation_name", Opt(Str)), variables=E.sym("variables", Opt(L.VARIABLES)))
+        if self.telemetry:
+            kw["root_span"] = Obj(F.FakeSpan, {})
+        return [self._self(E)], kw
+
+    def configure(self, ctx):
+        pass
+
+    def ensures(self, A, res):
+        v = A.variables
+        base = {"query": SV(A.query), "operationName": SV(A.operation_name)}
+        conv = V.VDict(L.conv_dict(V.vd(v)))
+        with_v = V.lower(Obj(models.JsonText, {"value": {"id": SV(A.operation_id), "type": "subscribe",
+                                                         "payload": dict(base, variables=SV(conv))}}))
+        without = V.lower(Obj(models.JsonText, {"value": {"id": SV(A.operation_id), "type": "subscribe", "payload": base}}))
+        frame = z3.If(truthy(v), with_v, without)
+        eff = F.effects_term(A["__effects__"])
+        return {"exactly-one-subscribe/carries-id-query-operationName-and-serialised-variables":
+                    eff == lst(tup("ws_send", frame)),
+                "returns-none": res == V.VNone}
+
+    def native_args(self, inputs):
+        self._inputs = inputs
+        self._ws = F.NativeWS()
+        kw = dict(websocket=self._ws, operation_id=inputs["operation_id"], query=inputs["query"],
+                  operation_name=inputs.get("operation_name"), variables=inputs.get("variables"))
+        if self.telemetry:
+            kw["root_span"] = _native_span()
+        return [], kw
+
+    def native_names(self, inputs, args, kwargs):
+        return {k: inputs.get(k) for k in ("operation_id", "query", "operation_name", "variables")}
+
+    def samples(self, tier):
+        m = L._build_model({"a": 1, "bC": None})
+        out = []
+        for v in (None, {}, {"a": 1}, {"a": L.BM.UNSET, "b": None}, {"m": m, "l": [m, 1]}, {"u": L.BM.UNSET}):
+            for on in (None, "Op"):
+                out.append(dict(operation_id="id-1", query="subscription Op { x }", operation_name=on, variables=v))
+        return out
+
+
+SENDERS = [SendConnectionInit(PLAIN, "AsyncBaseClient", "_send_connection_init"),
+           SendConnectionInit(OTEL, "AsyncBaseClientOpenTelemetry", "_send_connection_init"),
+           SendConnectionInit(OTEL, "AsyncBaseClientOpenTelemetry", "_send_connection_init_with_telemetry"),
+           SendSubscribe(PLAIN, "AsyncBaseClient", "_send_subscribe"),
+           SendSubscribe(OTEL, "AsyncBaseClientOpenTelemetry", "_send_subscribe"),
+           SendSubscribe(OTEL, "AsyncBaseClientOpenTelemetry", "_send_subscribe_with_telemetry")]
+CONVERTERS = [k(m, c) for k in (ConvertValue, ConvertDict)
+              for m, c in (("async_base_client", "AsyncBaseClient"),
+                           ("async_base_client_open_telemetry", "AsyncBaseClientOpenTelemetry"))]
+CONTRACTS = CONTRACTS + SENDERS + CONVERTERS
+
+
+# ------------------------------------------------------------------------------------------ the subscription iterator
+# Spec of the streaming phase as recursive functions over the list of server frames (after the ack):
+#   stream_events(frames): the events the statement prescribes (yield of each next frame's data, one pong per ping,
+#                          close on complete; nothing after complete / error / invalid frame)
+#   stream_end(frames):    None (iterator finishes) | the exception it must raise
+from pyvc.contract import Args                     # noqa: E402
+from pyvc.spec import _SPEC_MAPS, SpecMap          # noqa: E402
+
+SPEC_ERRORS = _SPEC_MAPS.setdefault("spec_errors", SpecMap("spec_errors", spec_error))
+PONG = V.lower(Obj(models.JsonText, {"value": {"type": "pong"}}))
+
+
+def frame_table(f):
+    return HandleWsMessage._table(None, Args(message=f, expected_type=V.VNone))
+
+
+def _ev(kind, payload):
+    return F.event_term(kind, SV(payload) if z3.is_expr(payload) else payload)
+
+
+def spec_multi_error(f):
+    return mk(X.GraphQLClientGraphQLMultiError, errors=V.VList(SPEC_ERRORS(V.vl(frame_payload(f)))), data=frame_obj(f))
+
+
+def spec_invalid(f):
+    return mk(X.GraphQLClientInvalidMessageFormat, message=f)
+
+
+def events_body(f, tail):
+    T = frame_table(f)
+    return z3.If(T["next_data"], V.VCons(_ev("yield", get(T["pl"], "data")), tail),
+           z3.If(T["ping"], V.VCons(_ev("ws_send", PONG), tail),
+           z3.If(T["quiet"], tail,
+           z3.If(T["complete"], V.VCons(_ev("ws_close", V.VNone), V.VNil), V.VNil))))
+
+
+def end_body(f, tail):
+    T = frame_table(f)
+    return z3.If(z3.Or(T["next_data"], T["ping"], T["quiet"]), tail,
+           z3.If(T["complete"], V.VNone,
+           z3.If(T["error"], spec_multi_error(f), spec_invalid(f))))
+
+
+def _define_stream():
+    ev = z3.RecFunction("stream_events", V.VL, V.VL)
+    end = z3.RecFunction("stream_end", V.VL, V.Val)
+    l = z3.FreshConst(V.VL, "fs")
+    z3.RecAddDefinition(ev, [l], z3.If(V.is_VNil(l), V.VNil, events_body(V.hd(l), ev(V.tl(l)))))
+    z3.RecAddDefinition(end, [l], z3.If(V.is_VNil(l), V.VNone, end_body(V.hd(l), end(V.tl(l)))))
+    return ev, end
+
+
+STREAM_EVENTS, STREAM_END = _define_stream()
+
+
+def stream_frame_pred(strict):
+    """shape of a server frame of the quantifier's alphabet; strict: additionally not a `next` frame with falsy data
+    (the carved region of finding F26)"""
+    def pred(m):
+        T = frame_table(m)
+        conj = [FRAME.pred(m), frame_requires(m),
+                z3.Implies(z3.And(is_json_frame(m), frame_type(m) == S("error")), ERRORS.pred(frame_payload(m)))]
+        if strict:
+            conj.append(z3.Not(z3.And(T["next_data"], z3.Not(truthy(get(T["pl"], "data"))))))
+        return z3.And(*conj)
+    return Pred(pred, "stream-frame")
+
+
+STREAM_FRAMES = ListOf(stream_frame_pred(False), name="stream_frames")
+STRICT_FRAMES = ListOf(stream_frame_pred(True), name="stream_frames_without_falsy_next")
+KWARGS = DictOf(Str, Any, name="ws_kwargs")
+HEADERS = DictOf(Str, Any, name="ws_headers")
+
+
+class ExecuteWs(Contract):
+    """statement: `opens the socket with the graphql-transport-ws subprotocol and configured headers/origin, sends
+    connection_init first and nothing more until connection_ack arrives, then exactly one subscribe ...  yields the
+    data of each next frame in order, answers every ping with one pong, finishes on complete, raises the GraphQL
+    multi-error on error and the invalid-message error on non-JSON, unknown or missing type or a first frame that is
+    not the ack` - for every frame sequence: loop invariant over the frame list (lib_fakes.traced_for)."""
+    props = ("C13",)
+    trusted = TRUSTED + L.TRUSTED + ["websockets: `async with ws_connect(url, **kw) as ws` yields a connection whose recv()/iteration "
+                                     "deliver the server's frames in order and whose iteration ends after close()",
+                                     "uuid4() is a fresh identifier"]
+    use_at_calls = False
+    frame_args = False
+    regions = {"next-frame-with-falsy-data": lambda A: z3.Not(STRICT_FRAMES.pred(A["frames"])) if "frames" in A
+               else z3.Not(STRICT_FRAMES.pred(z3.Const("frames", V.Val)))}
+
+    def __init__(self, mod, klass, method):
+        self.mod, self.klass, self.method = mod, klass, method
+        self.target = f"{mod.__name__}:{klass}.{method}"
+        self.telemetry = method.endswith("_with_telemetry")
+        F.install_ws_connect(mod, lambda I: I.p.fake_ws)
+
+    def setup(self, E):
+        strict = "next-frame-with-falsy-data" in self.excluded
+        frames = E.sym("frames", STRICT_FRAMES if strict else STREAM_FRAMES)
+        first = E.sym("first_frame", stream_frame_pred(False))
+        p = E.p
+
+        def elem(I, x, _strict=strict):
+            sh = stream_frame_pred(_strict)
+            I.p.assume(sh.pred(x))
+            from pyvc.shapes import _guarded_on_assume
+            _guarded_on_assume(I.ctx, ERRORS, z3.simplify(frame_payload(x)),
+                               z3.And(is_json_frame(x), frame_type(x) == S("error")))
+            I.p.current_item = x
+        from pyvc.shapes import _guarded_on_assume
+        _guarded_on_assume(E.ctx, ERRORS, z3.simplify(frame_payload(first.t)),
+                           z3.And(is_json_frame(first.t), frame_type(first.t) == S("error")))
+        ws = Obj(F.FakeWS, {"xs": V.vl(frames.t), "events": STREAM_EVENTS, "final": STREAM_END,
+                            "final_closed": V.VNone, "elem": elem,
+                            "events_step": lambda x, r: events_body(x, STREAM_EVENTS(r)),
+                            "final_step": lambda x, r: end_body(x, STREAM_END(r)), "recv_model": lambda I, o: first})
+        p.fake_ws = ws
+        attrs = {"ws_url": E.sym("ws_url", Str), "ws_headers": E.sym("ws_headers", HEADERS),
+                 "ws_origin": E.sym("ws_origin", Opt(Str)),
+                 "ws_connection_init_payload": E.sym("init_payload", Opt(JOBJ))}
+        if self.klass.endswith("OpenTelemetry"):
+            attrs.update(tracer=Obj(F.FakeTracer, {}), ws_root_span_name="GraphQL Subscription", ws_root_context=None)
+        kwargs = E.sym("kwargs", KWARGS)
+        E.assume(z3.Implies(has(kwargs.t, "extra_headers"), HEADERS.pred(get(kwargs.t, "extra_headers"))))
+        E.assume(z3.And(*[z3.Not(has(kwargs.t, k)) for k in ("query", "operation_name", "variables", "subprotocols")]))
+        return [Obj(getattr(self.mod, self.klass), attrs)], dict(
+            query=E.sym("query", Str), operation_name=E.sym("operation_name", Opt(Str)),
+            variables=E.sym("variables", Opt(L.VARIABLES)), __splat__=kwargs)
+
+    # -- spec ------------------------------------------------------------------------------------
+    def _c(self, A, name):
+        return A[name] if name in A else z3.Const(name, V.Val)
+
+    def _spec(self, A):
+        first, frames = self._c(A, "first_frame"), self._c(A, "frames")
+        ip, v = self._c(A, "init_payload"), A.variables
+        init = z3.If(truthy(ip), V.lower(Obj(models.JsonText, {"value": {"type": "connection_init", "payload": SV(ip)}})),
+                     V.lower(Obj(models.JsonText, {"value": {"type": "connection_init"}})))
+        base = {"query": SV(A.query), "operationName": SV(A.operation_name)}
+        op_id = self._c(A, "operation_id") if "operation_id" in A else V.VStr(z3.String("operation_uuid"))
+        sub = z3.If(truthy(v),
+                    V.lower(Obj(models.JsonText, {"value": {"id": SV(op_id), "type": "subscribe", "payload": dict(
+                        base, variables=SV(V.VDict(L.conv_dict(V.vd(v)))))}})),
+                    V.lower(Obj(models.JsonText, {"value": {"id": SV(op_id), "type": "subscribe", "payload": base}})))
+        T0 = HandleWsMessage._table(None, Args(message=first, expected_type=S("connection_ack")))
+        return dict(first=first, frames=V.vl(frames), init=init, sub=sub, T0=T0,
+                    handshake=V.VCons(_ev("ws_send", init), V.VNil),
+                    streamed=V.VCons(_ev("ws_send", init), V.VCons(_ev("ws_send", sub), STREAM_EVENTS(V.vl(frames)))))
+
+    def _connect(self, A):
+        kw = self._c(A, "kwargs")
+        connects = [p for k, p in A["__effects__"] if k == "ws_connect"]
+        sent = V.lower(connects[0]) if connects else V.VNone
+        hdrs = V.VDict(models.d_update(V.vd(self._c(A, "ws_headers")), V.vd(get(kw, "extra_headers", {}))))
+        other = z3.Const("other_key", V.Val)
+        return {
+            "exactly-one-connection": z3.BoolVal(len(connects) == 1),
+            "opened-with-url/graphql-transport-ws-subprotocol/configured-headers-and-origin": z3.And(
+                get(sent, "__url__") == self._c(A, "ws_url"), get(sent, "subprotocols") == lst("graphql-transport-ws"),
+                get(sent, "extra_headers") == hdrs,
+                get(sent, "origin") == z3.If(has(kw, "origin"), get(kw, "origin"), self._c(A, "ws_origin"))),
+            "other-kwargs-passed-through": z3.Implies(
+                z3.And(*[other != S(k) for k in ("extra_headers", "origin", "subprotocols", "__url__")]),
+                z3.And(has(sent, other) == has(kw, other), get(sent, other) == get(kw, other))),
+        }
+
+    def ensures(self, A, res):
+        S_ = self._spec(A)
+        out = self._connect(A)
+        out.update({
+            "finishes-only-after-ack-and-a-completed-or-exhausted-stream": z3.And(S_["T0"]["ok"], STREAM_END(S_["frames"]) == V.VNone),
+            "init-first/one-subscribe-after-ack/then-yields-pongs-close-in-frame-order":
+                F.trace_term(A["__effects__"]) == S_["streamed"],
+        })
+        return out
+
+    def on_raise(self, A, exc_cls, exc):
+        S_ = self._spec(A)
+        path = A["__path__"]
+        out = self._connect(A)
+        trace = F.trace_term(A["__effects__"])
+        T0 = S_["T0"]
+        in_stream = z3.And(T0["ok"], exc == STREAM_END(S_["frames"]), trace == S_["streamed"])
+        if exc_cls is X.GraphQLClientInvalidMessageFormat:
+            bad0 = z3.Or(z3.Not(T0["js"]), z3.Not(T0["known"]))
+            out["invalid-message-iff-first-frame-not-ack-or-stream-prescribes-it/nothing-sent-beyond-the-prescribed-events"] = z3.Or(
+                z3.And(z3.Not(T0["ok"]), trace == S_["handshake"], z3.Implies(bad0, exc == spec_invalid(S_["first"]))),
+                in_stream)
+            return out
+        if exc_cls is X.GraphQLClientGraphQLMultiError:
+            x = getattr(path, "current_item", None)
+            if x is not None and hasattr(path, "maps_used"):
+                SPEC_ERRORS.apply(path, V.vl(frame_payload(x)))
+            out["multi-error-iff-the-stream-prescribes-it/carries-every-error"] = in_stream
+            return out
+        out["no-other-exception-type"] = z3.BoolVal(False)
+        return out
+
+    # -- native replay: the real iterator driven against a scripted connection -----------------------------------
+    def native_function(self):
+        import asyncio
+        from unittest import mock
+        inputs = self._inputs
+        cls = getattr(self.mod, self.klass)
+        kw = dict(ws_url=inputs["ws_url"], ws_headers=inputs["ws_headers"], ws_origin=inputs.get("ws_origin"),
+                  ws_connection_init_payload=inputs.get("init_payload"))
+        if self.klass.endswith("OpenTelemetry"):
+            kw["tracer"] = _native_tracer() if self.telemetry else None
+        client = cls(**kw)
+        ws = self._ws = F.NativeWS([inputs["first_frame"]] + list(inputs["frames"]))
+        log = ws.log
+
+        def connect(*a, **k):
+            log.append(("ws_connect", dict(k, __url__=a[0] if a else None)))
+            return ws
+
+        def run(**kwargs):
+            async def drive():
+                with mock.patch.object(self.mod, "ws_connect", connect), \
+                        mock.patch.object(self.mod, "uuid4", lambda: "op-uuid"):
+                    async for item in getattr(client, self.method)(**kwargs):
+                        log.append(("yield", item))
+            asyncio.run(drive())
+            return None
+        return run
+
+    def native_args(self, inputs):
+        self._inputs = inputs
+        kw = dict(inputs.get("kwargs") or {})
+        kw.update(query=inputs["query"], operation_name=inputs.get("operation_name"), variables=inputs.get("variables"))
+        return [], kw
+
+    def native_names(self, inputs, args, kwargs):
+        out = {k: inputs.get(k) for k in ("ws_url", "ws_headers", "ws_origin", "init_payload", "kwargs", "query",
+                                          "operation_name", "variables")}
+        out["first_frame"] = F.abstract_text(inputs["first_frame"])
+        out["frames"] = [F.abstract_text(f) for f in inputs["frames"]]
+        out["operation_id"] = "op-uuid"
+        return out
+
+    def native_effects(self, inputs):
+        return [(k, F.abstract_text(v) if k == "ws_send" else v) for k, v in self._ws.log]
+
+    def native_lower(self, v, inputs):
+        if isinstance(v, X.GraphQLClientInvalidMessageFormat) and v.message in [inputs["first_frame"]] + list(inputs["frames"]):
+            return mk(X.GraphQLClientInvalidMessageFormat, message=F.abstract_text(v.message))
+        return None
+
+    def samples(self, tier):
+        import json
+        ack, ping, pong, complete = ({"type": t} for t in ("connection_ack", "ping", "pong", "complete"))
+        nxt = lambda d: {"type": "next", "payload": {"data": d}}          # noqa: E731
+        err = {"type": "error", "payload": [{"message": "boom"}]}
+        seqs = [(ack, []), (ack, [complete]), (ack, [nxt({"a": 1}), nxt({"a": 2}), complete]), (ack, [ping, nxt({"a": 1}), ping]),
+                (ack, [pong, ack, nxt({"a": 1})]), (ack, [nxt({"a": 1}), err, nxt({"a": 2})]), (ack, [complete, nxt({"a": 1})]),
+                (ack, [{"type": "bogus"}]), (ack, [{}]), (ack, [nxt({"a": 1}), "not json"]), (ack, [{"type": "next", "payload": {}}]),
+                (ping, [nxt({"a": 1})]), (nxt({"a": 1}), []), (err, []), ("not json", []), ({"type": None}, []), (complete, [])]
+        out = []
+        for first, frames in seqs:
+            for ip, variables in ((None, None), ({"token": "t"}, {"a": 1, "u": L.BM.UNSET, "m": L._build_model({"x": 1})})):
+                enc = lambda f: f if isinstance(f, str) else json.dumps(f)       # noqa: E731
+                out.append(dict(first_frame=enc(first), frames=[enc(f) for f in frames], ws_url="ws://h/graphql",
+                                ws_headers={"A": "1"}, ws_origin=None if ip is None else "http://o", init_payload=ip,
+                                kwargs={} if ip is None else {"extra_headers": {"B": "2"}, "open_timeout": 3},
+                                query="subscription S { x }", operation_name="S", variables=variables))
+        return out
+
+
+ITERATORS = [ExecuteWs(PLAIN, "AsyncBaseClient", "execute_ws"),
+             ExecuteWs(OTEL, "AsyncBaseClientOpenTelemetry", "_execute_ws"),
+             ExecuteWs(OTEL, "AsyncBaseClientOpenTelemetry", "_execute_ws_with_telemetry")]
+CONTRACTS = CONTRACTS + ITERATORS
+
+
+FALSY_CASES = {"data-null": None, "data-empty-object": {}, "data-empty-list": [], "data-zero": 0, "data-empty-string": "",
+               "data-false": False}
+
+
+def witness_falsy_next():
+    """known finding F26: a `next` frame whose data is falsy is not yielded (`if data:` in the iterator loop).
+    Runs the three real iterators on [ack, next(<data>), next({"a": 1}), complete] for every falsy JSON value."""
+    import json
+    failing, detail = [], {}
+    for name, data in FALSY_CASES.items():
+        for c in ITERATORS:
+            inputs = dict(first_frame=json.dumps({"type": "connection_ack"}),
+                          frames=[json.dumps({"type": "next", "payload": {"data": data}}),
+                                  json.dumps({"type": "next", "payload": {"data": {"a": 1}}}), json.dumps({"type": "complete"})],
+                          ws_url="ws://h/graphql", ws_headers={}, ws_origin=None, init_payload=None, kwargs={},
+                          query="subscription S { x }", operation_name="S", variables=None)
+            args, kwargs = c.native_args(inputs)
+            c.native_function()(**kwargs)
+            yields = [v for k, v in c._ws.log if k == "yield"]
+            if yields != [data, {"a": 1}]:
+                if name not in failing:
+                    failing.append(name)
+                detail.setdefault(name, []).append(f"{c.klass}.{c.method} yielded {yields!r}")
+    return dict(inputs={"scenario": "next-frame-with-falsy-data"}, cases=failing, detail=detail,
+                failed=["yields-the-data-of-each-next-frame"] if failing else [])
